@@ -14,6 +14,7 @@ INVARIANT Window
 INVARIANT RecvBound
 INVARIANT NoFrmr
 INVARIANT SeqOk
+INVARIANT WinInd
 INVARIANT NoLoss
 INVARIANT FrameFits
 INVARIANT NotBroken
